@@ -270,10 +270,62 @@ def colspecs():
     yield 'modified', 'date'
     yield '*', 'colcol'
     yield '*', 'longpath'
+    for c in CLASSCOLS:
+        yield c, 'class'
     yield '*', 'extra'
     yield 'America/Havana', 'date2'
     yield 'Atlantic/Azores', 'date2'
     yield 'UTC', 'date2'
+
+
+CLASSCOLS = ['is_archive', 'is_audio', 'is_book', 'is_doc', 'is_font', 'is_image', 'is_source', 'is_video']
+
+
+def eval_class(env, group):
+    """file-class columns (the name ends with one of the configured extensions) compared with a boolean literal, alone and behind
+    conjuncts that fail for the first entries, under root options that make the walk itself look at extensions"""
+    import re
+    col = group['col']
+    conf = open(env.config_path()).read()
+    lists = {c: re.findall(r'"([^"]+)"', re.search(r'(?ms)^%s = \[(.*?)\]' % c, conf).group(1)) for c in CLASSCOLS}
+    zips = re.findall(r'"([^"]+)"', re.search(r'(?ms)^is_zip_archive = \[(.*?)\]', conf).group(1))
+    names = set()
+    for lst in list(lists.values()) + [zips]:
+        for e in lst[:6] + lst[-2:]:
+            names |= {'f' + e, 'G' + e.upper(), 'x' + e[1:]}
+    names |= {'x.tar.gz', 'app.jar', 'lib.war', 'e.ear', 'plain', 'a.zipx'}
+    tree = {'aaa': D({n: F(1) for n in sorted(names)[::3]}), '000': D({})}
+    tree.update({n: F(1) for n in names})
+    root = env.newdir('c2c')
+    core.materialise(root, tree)
+    outs = []
+    try:
+        ents = entries(root)
+        is_cls = lambda e: any(e['name'].lower().endswith(x.lower()) for x in lists[col])
+        for opts in ('', 'archives', 'archives dfs', 'dfs', 'symlinks archives'):
+            for pre, ppred in (('', lambda e: True), ('is_file = true and ', lambda e: e['is_file']), ("name like '%.%' and ", lambda e: '.' in e['name']),
+                               ("path like './aaa/%' and ", lambda e: e['path'].startswith('./aaa/')), ("name != 'aaa' and name != '000' and ", lambda e: e['name'] not in ('aaa', '000'))):
+                for lit, want in (('true', True), ('false', False), ('yes', True), ('0', False)):
+                    cond = '%s%s = %s' % (pre, col, lit)
+                    if group['only'] is not None and [opts, cond] != group['only']:
+                        continue
+                    q = 'path from . %s where %s into list' % (opts, cond)
+                    o = env.run([q], cwd=root, preload=True, env={'FSX_READDIR': 'sorted'})     # the two directories arrive first
+                    exp = sorted(e['path'] for e in ents if ppred(e) and is_cls(e) == want)
+                    got = sorted(r_ for r_ in o.rows() if not r_.startswith('['))
+                    r = {'case': {'variant': group['variant'], 'col': col, 'kind': 'class', 'cond': [opts, cond]}, 'nt': 0 < len(exp) < len(ents), 'layer': 'class',
+                         'trans': len(ents)}
+                    if o.timeout or o.rc != 0:
+                        r.update(status='viol', cls='class:status', detail=dict(o.brief(), query=q), sig=('err', o.rc))
+                    elif got != exp:
+                        r.update(status='viol', cls='class:rows', sig=('rows', len(got)),
+                                 detail={'query': q, 'missing': sorted(set(exp) - set(got))[:6], 'extra': sorted(set(got) - set(exp))[:6]})
+                    else:
+                        r.update(status='ok', sig=(len(exp),))
+                    outs.append(r)
+    finally:
+        env.rmtree(root)
+    return outs
 
 
 def groups(tier, seed):
@@ -397,6 +449,8 @@ def eval_date2(env, group):
 def eval_group(env, group, tier):
     if group['kind'] == 'longpath':
         return eval_longpath(env, group) if group['variant'] == 0 else []
+    if group['kind'] == 'class':
+        return eval_class(env, group) if group['variant'] == 0 else []
     if group['kind'] == 'date2':
         return eval_date2(env, group) if group['variant'] == 0 else []
     root = env.newdir('c2')
